@@ -263,6 +263,13 @@ VARIANTS = {
     "ce-B2-nibble-shift-12": ("frame.rs", rep(FR, "FrameId::CurrentFrameId(frame_id) => id |= ((frame_id & 0x0f00) as u32 >> 8) << 16,", "FrameId::CurrentFrameId(frame_id) => id |= ((frame_id & 0x0f00) as u32 >> 8) << 12,"), "src_toCan_eq"),
     "ce-B3-address-low-byte-only": ("frame.rs", rep(FR, "id |= (self.device_address & 0xffff) as u32;", "id |= (self.device_address & 0x00ff) as u32;"), "src_toCan_eq"),
     "ce-B4-flag-dropped": ("frame.rs", rep(FR, "        id |= (self.multi_frame_flag as u32) << 26;\n", ""), "src_toCan_eq"),
+    # ---- frame.rs: to_usart_frame
+    "ue-R1-flag-statements-swapped": ("frame.rs", rep(FR, "        frame[0] |= (self.not_error_flag as u8) << 7;\n        frame[0] |= (self.start_frame_flag as u8) << 6;", "        frame[0] |= (self.start_frame_flag as u8) << 6;\n        frame[0] |= (self.not_error_flag as u8) << 7;"), None),
+    "ue-R2-address-bytes-swapped-order": ("frame.rs", rep(FR, "        frame[2] = ((self.device_address & 0xff00) >> 8) as u8;\n        frame[3] = (self.device_address & 0x00ff) as u8;", "        frame[3] = (self.device_address & 0x00ff) as u8;\n        frame[2] = ((self.device_address & 0xff00) >> 8) as u8;"), None),
+    "ue-B1-multi-bit-4": ("frame.rs", rep(FR, "frame[0] |= (self.multi_frame_flag as u8) << 5;", "frame[0] |= (self.multi_frame_flag as u8) << 4;"), "src_toUsart_eq"),
+    "ue-B2-address-bytes-exchanged": ("frame.rs", rep(FR, "        frame[2] = ((self.device_address & 0xff00) >> 8) as u8;\n        frame[3] = (self.device_address & 0x00ff) as u8;", "        frame[3] = ((self.device_address & 0xff00) >> 8) as u8;\n        frame[2] = (self.device_address & 0x00ff) as u8;"), "src_toUsart_eq"),
+    "ue-B3-id-byte-assigned-over-flags": ("frame.rs", rep(FR, "FrameId::CurrentFrameId(frame_id) => frame[1] |= (frame_id & 0x00ff) as u8,", "FrameId::CurrentFrameId(frame_id) => frame[1] |= (frame_id & 0x007f) as u8,"), "src_toUsart_eq"),
+    "ue-B4-length-byte-plus-one": ("frame.rs", rep(FR, "frame[4] = self.data_len;", "frame[4] = self.data_len | 0x10;"), "src_toUsart_eq"),
     # ---- event encoders
     "en-R1-vec-new": ("event/button.rs", rep(BU, "        let mut data = vec![];\n\n        for byte in u16::to_be_bytes(BUTTON_PRESSED_EVENT_CODE)", "        let mut data = Vec::new();\n\n        for byte in u16::to_be_bytes(BUTTON_PRESSED_EVENT_CODE)"), None),
     "en-B1-error-flag-set": ("event/button.rs", rep(BU, "            is_error: false,\n            device_address: self.receiver_address,", "            is_error: true,\n            device_address: self.receiver_address,"), "src_encode_buttonPressed"),
